@@ -109,6 +109,21 @@ class Tx(ast.NodeTransformer):
 
     def visit_Assign(self, node):
         self.generic_visit(node)
+        if len(node.targets) == 1 and isinstance(node.targets[0], (ast.Tuple, ast.List)) and \
+                any(isinstance(e, ast.Subscript) for e in node.targets[0].elts) and \
+                not any(isinstance(e, ast.Starred) for e in node.targets[0].elts):
+            # a[i], b[j] = x, y   ->  t = unpack(value); a[i] = t[0]; b[j] = t[1]   (same evaluation order as Python)
+            elts = node.targets[0].elts
+            tmp = '__sx_t%d' % len(self.stack)
+            out = [ast.Assign([ast.Name(tmp, ast.Store())], ast.Call(func=ast.Name('__sx_unpack__', ast.Load()),
+                                                                      args=[node.value, ast.Constant(len(elts))], keywords=[]))]
+            for k, e in enumerate(elts):
+                val = ast.Subscript(ast.Name(tmp, ast.Load()), ast.Constant(k), ast.Load())
+                if isinstance(e, ast.Subscript):
+                    out.append(ast.Expr(ast.Call(func=ast.Name('__sx_setitem__', ast.Load()), args=[e.value, self._idx(e.slice), val], keywords=[])))
+                else:
+                    out.append(ast.Assign([e], val))
+            return [ast.copy_location(x, node) for x in out]
         if len(node.targets) == 1 and isinstance(node.targets[0], ast.Subscript):
             t = node.targets[0]
             return ast.copy_location(ast.Expr(ast.Call(func=ast.Name('__sx_setitem__', ast.Load()),
